@@ -336,6 +336,23 @@ fn window(rng: &mut Rng, text: &str, max: usize) -> String {
     text[a..b].to_string()
 }
 
+/// Inputs that are always run (indices just after the corpus files): the witness of the Lean counterexample
+/// and the minimal failing input of every defect this check has found, so each is re-decided on every run.
+const FIXED: [(&str, bool); 12] = [
+    ("a\0b", false),                                                                   // NUL = EOF sentinel (theorem witness)
+    ("feature liga { sub a by b; } liga;\0feature kern { pos a b 1; } kern;", true),   // … silently drops `kern`
+    ("feature liga { sub a by \0 b; } liga;\n@c=[a];", true),                          // NUL eaten as a 1-byte Eof token
+    ("include;", false),                                                               // Include::path unwrap
+    ("include", true),
+    ("feature kern { pos a ${a-12.5}; } kern;", true),                                 // take_next_token slices past the end
+    ("anchorDef 0 (wght=200:12 wdthh=150) COOL;", false),                              // location loop never advances
+    ("@c = [a--b];", true),                                                            // try_split_range drops a hyphen
+    ("languagesystem DFLT dflt", false),                                               // `pos..pos+1` past the end
+    ("@c = [a]\u{e9}", true),                                                          // `pos..pos+1` inside a character
+    ("aaaaaaaaaaaaaaaaaaaaaaaaaaaaaaaaaaaaaaaaaaaaaaaaaaaaaaaaaaaaaaaaaaaaaaaaaaaaaaaaaaaaaaaaaaaaaaaaaaa\u{e9};", false), // display() cuts a line at byte 100
+    ("include()", false),                                                              // path mode swallows the `)`
+];
+
 pub struct LexCase {
     pub src: String,
     pub genr: String,
@@ -347,6 +364,10 @@ pub fn gen_lex_case(rng: &mut Rng, i: usize) -> LexCase {
     // the first |corpus| indices are the corpus files themselves, unchanged
     if i < corp.len() {
         return LexCase { src: corp[i].1.clone(), genr: "corpus".into(), use_map: i % 2 == 1 };
+    }
+    if i < corp.len() + FIXED.len() {
+        let (t, m) = FIXED[i - corp.len()];
+        return LexCase { src: t.to_string(), genr: "fixed".into(), use_map: m };
     }
     let use_map = rng.chance(1, 2);
     // NUL (the known EOF-sentinel defect) is only injected in a small, separately tagged share of cases
